@@ -284,6 +284,7 @@ func newInterpreter(env *Env) *interpreter {
 func (in *interpreter) beginPath(ps *pathState) {
 	in.ps = ps
 	in.sched = newScheduler()
+	in.race = nil
 	in.depth = 0
 	in.timeCounter = 0
 	for g := range in.globals {
